@@ -105,6 +105,19 @@ template <typename B, typename V, typename S, int N> static std::string run_rang
   case 7: { B b; return showb<B, V, S, N>(b); }
   case 8: { B b = empty; return showb<B, V, S, N>(b); }
   case 9: { B b; B c(vec_at<V, S, N>(a, 0), vec_at<V, S, N>(a, 1)); b.extend(c); return showb<B, V, S, N>(b); }
+  case 16: { B b(vec_at<V, S, N>(a, 0), vec_at<V, S, N>(a, 1)); std::ostringstream o; o << b; return o.str(); }   // operator<<
+  case 17: { B b(zero); return showb<B, V, S, N>(b); }
+  case 18: { B b(one); return showb<B, V, S, N>(b); }
+  case 19: { B b(vec_at<V, S, N>(a, 0)); return showb<B, V, S, N>(b); }
+  case 25: { V arr[2] = {vec_at<V, S, N>(a, 0), vec_at<V, S, N>(a, 1)}; B b(arr); return showb<B, V, S, N>(b); }   // range_t(const T *)
+  case 26: {                                                                                                     // operator T*(), operator const T*() const
+    B b(vec_at<V, S, N>(a, 0), vec_at<V, S, N>(a, 1));
+    const B cb = b;
+    V *p = b;
+    const V *cp = cb;
+    bool same = p == &b.lower && cp == &cb.lower;
+    return showv<V, S, N>(p[0]) + " " + showv<V, S, N>(p[1]) + " " + showv<V, S, N>(cp[0]) + " " + showv<V, S, N>(cp[1]) + " " + show(same);
+  }
   }
   return "nan nan nan";
 }
@@ -157,11 +170,25 @@ template <typename B, typename V, typename S, int N> static std::string run_touc
 
 static std::string run_case(int op, int code, const std::vector<std::string> &a)
 {
-  if (op < 10) {
+  if (op < 10 || (op >= 16 && op <= 19) || op == 25 || op == 26) {
     DISPATCH(run_range, (op, a))
     if (code == 32) return run_range<box3fa, vec3fa, float, 3>(op, a);
-  } else if (op < 20) {
+  } else if (op < 16) {
     DISPATCH(run_arith, (op, a))
+    if (code == 32) return run_arith<box3fa, vec3fa, float, 3>(op, a);
+  } else if (op == 27) {
+    // explicit range_t(const range_t<other_t> &): from the sibling element type of the same dimension
+    switch (code) {
+    case 11: return showb<range1f, float, float, 1>(range1f(range1i(vec_at<int, int, 1>(a, 0), vec_at<int, int, 1>(a, 1))));
+    case 10: return showb<range1i, int, int, 1>(range1i(range1f(vec_at<float, float, 1>(a, 0), vec_at<float, float, 1>(a, 1))));
+    case 21: return showb<box2f, vec2f, float, 2>(box2f(box2i(vec_at<vec2i, int, 2>(a, 0), vec_at<vec2i, int, 2>(a, 1))));
+    case 20: return showb<box2i, vec2i, int, 2>(box2i(box2f(vec_at<vec2f, float, 2>(a, 0), vec_at<vec2f, float, 2>(a, 1))));
+    case 31: return showb<box3f, vec3f, float, 3>(box3f(box3i(vec_at<vec3i, int, 3>(a, 0), vec_at<vec3i, int, 3>(a, 1))));
+    case 30: return showb<box3i, vec3i, int, 3>(box3i(box3f(vec_at<vec3f, float, 3>(a, 0), vec_at<vec3f, float, 3>(a, 1))));
+    case 32: return showb<box3fa, vec3fa, float, 3>(box3fa(box3f(vec_at<vec3f, float, 3>(a, 0), vec_at<vec3f, float, 3>(a, 1))));
+    case 41: return showb<box4f, vec4f, float, 4>(box4f(box4i(vec_at<vec4i, int, 4>(a, 0), vec_at<vec4i, int, 4>(a, 1))));
+    case 40: return showb<box4i, vec4i, int, 4>(box4i(box4f(vec_at<vec4f, float, 4>(a, 0), vec_at<vec4f, float, 4>(a, 1))));
+    }
   } else if (op < 23) {
     DISPATCH_ND(run_box, (op, a))
     if (code == 32) return run_box<box3fa, vec3fa, float, 3>(op, a);
@@ -204,6 +231,19 @@ static std::string run_case(int op, int code, const std::vector<std::string> &a)
     affine3f m(linear3f(vec_at<vec3f, float, 3>(a, 0), vec_at<vec3f, float, 3>(a, 1), vec_at<vec3f, float, 3>(a, 2)),
                vec_at<vec3f, float, 3>(a, 3));
     return showv<vec3f, float, 3>(xfmPoint(m, vec_at<vec3f, float, 3>(a, 4)));
+  } else if (op == 41 && code == 32) {
+    typedef AffineSpaceT<LinearSpace3<vec3fa>> affa;
+    affa m(LinearSpace3<vec3fa>(vec_at<vec3fa, float, 3>(a, 0), vec_at<vec3fa, float, 3>(a, 1), vec_at<vec3fa, float, 3>(a, 2)),
+           vec_at<vec3fa, float, 3>(a, 3));
+    return showv<vec3fa, float, 3>(xfmPoint(m, vec_at<vec3fa, float, 3>(a, 4)));
+  } else if (op == 51 && code == 21) {   // default tRange = range_t<T>(0, inf)
+    range1f r = intersectRayBox(vec_at<vec2f, float, 2>(a, 0), vec_at<vec2f, float, 2>(a, 1),
+                                box2f(vec_at<vec2f, float, 2>(a, 2), vec_at<vec2f, float, 2>(a, 3)));
+    return show(r.lower) + " " + show(r.upper);
+  } else if (op == 51 && code == 31) {
+    range1f r = intersectRayBox(vec_at<vec3f, float, 3>(a, 0), vec_at<vec3f, float, 3>(a, 1),
+                                box3f(vec_at<vec3f, float, 3>(a, 2), vec_at<vec3f, float, 3>(a, 3)));
+    return show(r.lower) + " " + show(r.upper);
   } else if (op == 50 && code == 21) {
     range1f r = intersectRayBox(vec_at<vec2f, float, 2>(a, 0), vec_at<vec2f, float, 2>(a, 1),
                                 box2f(vec_at<vec2f, float, 2>(a, 2), vec_at<vec2f, float, 2>(a, 3)),
